@@ -3,7 +3,6 @@ package main
 import (
 	"regexp"
 	"fmt"
-	"os"
 	"go/ast"
 	"go/constant"
 	"go/token"
@@ -507,56 +506,7 @@ func c13Narrowing(w *World, r *Report) {
 	// getLength
 	gl := w.Method("compile", "Compiler", "getLength")
 	gfd, _ := w.FuncDecl(gl)
-	gotL := describe(gfd)
-	if os.Getenv("YV_DEBUG") != "" {
-		fmt.Println("DEBUG getLength:", strings.Join(gotL, "\n  "))
-	}
-	for _, n := range []string{"<elem(parse.Lb)>.Start<<<Len()>.Lbs[0].Start>", "<elem(parse.Lb)>.End><<Len()>.Lbs[len(<Len()>.Lbs)-1].End>", "$schema.Lb.Start<<<<elem(schema.Lb)>.Start>>"} {
-		found := false
-		for _, g := range gotL {
-			if g == n {
-				found = true
-			}
-		}
-		r.Check(found, "R13.4", "getLength: "+n, gfd.Pos(), "⇒ error", "the length narrowing test "+n+" no longer guards an error exit")
-	}
-	// inside the scan over the base parts only the resolved bounds (lb) are compared, never the parsed ones
-	bad := false
-	subset := false
-	ast.Inspect(gfd.Body, func(x ast.Node) bool {
-		outer, ok := x.(*ast.RangeStmt)
-		if !ok {
-			return true
-		}
-		parsed := objOfIdent(p, outer.Value)
-		if parsed == nil {
-			return true
-		}
-		ast.Inspect(outer.Body, func(y ast.Node) bool {
-			inner, ok := y.(*ast.RangeStmt)
-			if !ok {
-				return true
-			}
-			ast.Inspect(inner.Body, func(z ast.Node) bool {
-				if se, ok := z.(*ast.SelectorExpr); ok && objOfIdent(p, se.X) == parsed {
-					bad = true
-				}
-				if is, ok := z.(*ast.IfStmt); ok {
-					c := normCondIn(p, gfd, is.Cond)
-					if os.Getenv("YV_DEBUG") != "" {
-						fmt.Println("DEBUG inner if:", c)
-					}
-					if c == "$schema.Lb.Start>=<<<elem(schema.Lb)>.Start>>&&$schema.Lb.End<=<<<elem(schema.Lb)>.End>>" {
-						subset = true
-					}
-				}
-				return true
-			})
-			return true
-		})
-		return true
-	})
-	r.Check(!bad && subset, "R13.4", "getLength subset test uses resolved bounds", gfd.Pos(), "lb.Start >= rangeMin && lb.End <= rangeMax", "the subset-of-a-base-part test reads the parsed boundary (which is 0 for min/max keywords) instead of the resolved one: \"5..max\" over \"1..10 | 20..30\" is accepted across the gap")
+	c13LengthNarrowing(w, r, gfd.Pos())
 }
 
 // normCond renders a condition independent of local variable names: method
@@ -867,4 +817,272 @@ func c13RangeNarrowing(w *World, r *Report, pos token.Pos) {
 	} {
 		r.Check(found[t.t], "R13.4", "createRangeBdry: "+t.what, pos, "⇒ error", "the narrowing test "+t.what+" no longer guards an error exit: a derived range that is not a subset of its base is accepted")
 	}
+}
+
+// c13LengthNarrowing (R13.4, getLength): the same three narrowing tests as for
+// ranges, on integers, identified by where the operands come from:
+//   parsed start  <  base minimum  (first base part's Start)            ⇒ error
+//   parsed end    >  base maximum  (last base part's End)               ⇒ error
+//   resolved start <  start of the current run of base parts            ⇒ error
+// and inside the scan over the base parts every comparison against a base
+// part uses the *resolved* bound (the parsed one is 0 for min/max).
+func c13LengthNarrowing(w *World, r *Report, pos token.Pos) {
+	root := w.SSAFunc(w.Method("compile", "Compiler", "getLength"))
+	cerr := w.Method("compile", "Compiler", "error")
+	if root == nil {
+		panic(undecided{"Compiler.getLength"})
+	}
+	var cone []*ssa.Function
+	for _, g := range allFuncs(w.SSAPkg("compile")) {
+		if !isTestFile(w, g.Pos()) && w.OwnedBy(g, root) {
+			cone = append(cone, g)
+		}
+	}
+	typeName := func(t types.Type) string {
+		if p, ok := t.(*types.Pointer); ok {
+			t = p.Elem()
+		}
+		if n, ok := t.(*types.Named); ok && n.Obj().Pkg() != nil {
+			return n.Obj().Pkg().Name() + "." + n.Obj().Name()
+		}
+		return ""
+	}
+	// source tags of a value
+	var sources func(v ssa.Value) map[string]bool
+	sources = func(v ssa.Value) map[string]bool {
+		out := map[string]bool{}
+		seen := map[ssa.Value]bool{}
+		var fieldOf func(base ssa.Value, name string, d int)
+		var walk func(v ssa.Value, d int)
+		// base is the struct (or its address) a Start/End field is read from
+		fieldOf = func(base ssa.Value, name string, d int) {
+			switch x := base.(type) {
+			case *ssa.Alloc:
+				// a local boundary: what was stored into that field
+				for _, ref := range *x.Referrers() {
+					if fa, ok := ref.(*ssa.FieldAddr); ok {
+						st := fa.X.Type().Underlying().(*types.Pointer).Elem().Underlying().(*types.Struct)
+						if st.Field(fa.Field).Name() != name {
+							continue
+						}
+						for _, r2 := range *fa.Referrers() {
+							if s2, ok := r2.(*ssa.Store); ok && s2.Addr == ssa.Value(fa) {
+								walk(s2.Val, d+1)
+							}
+						}
+					}
+					if s2, ok := ref.(*ssa.Store); ok && s2.Addr == ssa.Value(x) {
+						fieldOf(s2.Val, name, d+1)
+					}
+				}
+				return
+			case *ssa.UnOp:
+				if x.Op == token.MUL {
+					fieldOf(x.X, name, d+1)
+					return
+				}
+			case *ssa.IndexAddr:
+				tn := typeName(x.Type().Underlying().(*types.Pointer).Elem())
+				idx := "i"
+				if k, ok := intConstOf(x.Index); ok {
+					idx = fmt.Sprint(k)
+				} else if bo, ok := x.Index.(*ssa.BinOp); ok && bo.Op == token.SUB {
+					if one, ok := intConstOf(bo.Y); ok && one == 1 {
+						if _, isLen := isLenCall(bo.X); isLen {
+							idx = "last"
+						}
+					}
+				}
+				out[tn+"["+idx+"]."+name] = true
+				return
+			case *ssa.Index:
+				out[typeName(x.Type())+"[i]."+name] = true
+				return
+			case *ssa.Phi:
+				for _, e := range x.Edges {
+					fieldOf(e, name, d+1)
+				}
+				return
+			}
+			out[typeName(base.Type())+"."+name] = true
+		}
+		walk = func(v ssa.Value, d int) {
+			if v == nil || seen[v] || d > 40 {
+				return
+			}
+			seen[v] = true
+			switch x := v.(type) {
+			case *ssa.Field:
+				st := x.X.Type().Underlying().(*types.Struct)
+				n := st.Field(x.Field).Name()
+				if n == "Start" || n == "End" {
+					fieldOf(x.X, n, d)
+					return
+				}
+			case *ssa.UnOp:
+				if fa, ok := x.X.(*ssa.FieldAddr); ok && x.Op == token.MUL {
+					st := fa.X.Type().Underlying().(*types.Pointer).Elem().Underlying().(*types.Struct)
+					n := st.Field(fa.Field).Name()
+					if n == "Start" || n == "End" {
+						fieldOf(fa.X, n, d)
+						return
+					}
+				}
+			case *ssa.Parameter:
+				fn := x.Parent()
+				if fn == root {
+					return
+				}
+				for i, p := range fn.Params {
+					if p != x {
+						continue
+					}
+					for _, g := range cone {
+						for _, b := range g.Blocks {
+							for _, in := range b.Instrs {
+								if c, ok := in.(ssa.CallInstruction); ok && c.Common().StaticCallee() == fn && i < len(c.Common().Args) {
+									walk(c.Common().Args[i], d+1)
+								}
+							}
+						}
+					}
+				}
+				return
+			case *ssa.Const, *ssa.Global, *ssa.Function, *ssa.FreeVar:
+				return
+			}
+			if in, ok := v.(ssa.Instruction); ok {
+				for _, op := range in.Operands(nil) {
+					if *op != nil {
+						walk(*op, d+1)
+					}
+				}
+			}
+		}
+		walk(v, 0)
+		return out
+	}
+	type cmp struct {
+		op          string // "<" : left < right
+		left, right map[string]bool
+		guards      bool
+		inScan      bool
+		pos         token.Pos
+	}
+	var cmps []cmp
+	for _, g := range cone {
+		for _, b := range g.Blocks {
+			for _, in := range b.Instrs {
+				bo, ok := in.(*ssa.BinOp)
+				if !ok || !isIntegerType(bo.X.Type()) {
+					continue
+				}
+				l, rr := bo.X, bo.Y
+				op := ""
+				negated := false
+				switch bo.Op {
+				case token.LSS:
+					op = "<"
+				case token.GTR:
+					l, rr, op = rr, l, "<"
+				case token.GEQ: // !(l < r)
+					op, negated = "<", true
+				case token.LEQ: // !(r < l)
+					l, rr, op, negated = rr, l, "<", true
+				default:
+					continue
+				}
+				c := cmp{op: op, left: sources(l), right: sources(rr), pos: bo.Pos()}
+				// does the outcome "left < right" lead to an error exit?
+				for _, ref := range *bo.Referrers() {
+					var ifi *ssa.If
+					neg := negated
+					switch x := ref.(type) {
+					case *ssa.If:
+						ifi = x
+					case *ssa.UnOp:
+						if x.Op == token.NOT {
+							for _, r2 := range *x.Referrers() {
+								if y, ok := r2.(*ssa.If); ok {
+									ifi, neg = y, !negated
+								}
+							}
+						}
+					}
+					if ifi == nil {
+						continue
+					}
+					succ := ifi.Block().Succs[0]
+					if neg {
+						succ = ifi.Block().Succs[1]
+					}
+					if len(succ.Preds) != 1 {
+						continue
+					}
+					for _, eb := range g.Blocks {
+						if !succ.Dominates(eb) {
+							continue
+						}
+						for _, in2 := range eb.Instrs {
+							if ec, ok := in2.(ssa.CallInstruction); ok && ec.Common().StaticCallee() != nil && ec.Common().StaticCallee().Object() == types.Object(cerr) {
+								c.guards = true
+							}
+						}
+					}
+				}
+				for t := range c.left {
+					if strings.HasPrefix(t, "schema.Lb[i].") {
+						c.inScan = true
+					}
+				}
+				for t := range c.right {
+					if strings.HasPrefix(t, "schema.Lb[i].") {
+						c.inScan = true
+					}
+				}
+				cmps = append(cmps, c)
+			}
+		}
+	}
+	has := func(m map[string]bool, k string) bool { return m[k] }
+	find := func(pred func(c cmp) bool) bool {
+		for _, c := range cmps {
+			if c.guards && pred(c) {
+				return true
+			}
+		}
+		return false
+	}
+	tests := []struct {
+		what string
+		pred func(c cmp) bool
+	}{
+		{"parsed start < base minimum", func(c cmp) bool { return has(c.left, "parse.Lb[i].Start") && has(c.right, "schema.Lb[0].Start") && !c.inScan }},
+		{"parsed end > base maximum", func(c cmp) bool { return has(c.right, "parse.Lb[i].End") && has(c.left, "schema.Lb[last].End") && !c.inScan }},
+		{"resolved start < start of the current run of base parts", func(c cmp) bool {
+			return has(c.left, "parse.Lb[i].Start") && has(c.left, "schema.Lb[0].Start") && has(c.right, "schema.Lb[i].Start")
+		}},
+	}
+	for _, t := range tests {
+		r.Check(find(t.pred), "R13.4", "getLength: "+t.what, pos, "⇒ error", "the length narrowing test `"+t.what+"` no longer guards an error exit")
+	}
+	// inside the scan, what is compared with a base part is a resolved bound
+	bad := token.NoPos
+	nScan := 0
+	for _, c := range cmps {
+		if !c.inScan {
+			continue
+		}
+		for _, side := range []map[string]bool{c.left, c.right} {
+			parsed := side["parse.Lb[i].Start"] || side["parse.Lb[i].End"]
+			resolved := side["schema.Lb[0].Start"] || side["schema.Lb[last].End"]
+			if parsed {
+				nScan++
+				if !resolved {
+					bad = c.pos
+				}
+			}
+		}
+	}
+	r.Check(!bad.IsValid() && nScan >= 2, "R13.4", "getLength subset test uses resolved bounds", pos, "lb.Start >= rangeMin && lb.End <= rangeMax", "the subset-of-a-base-part test reads the parsed boundary (which is 0 for min/max keywords) instead of the resolved one ("+w.PosStr(bad)+"): \"5..max\" over \"1..10 | 20..30\" is accepted across the gap")
 }
